@@ -34,8 +34,21 @@ def generic(pid, tier, seed, mcs, scripts, vals, assumptions, extra_cov=None, pr
     mc_res = [V.mc(m, c, "%s_%d" % (pid, i)) for i, (m, c) in enumerate(mcs)]
     projs = sorted({p for (p, _, _) in vals})
     del V.HANGS[:]
+    del V.PANICS[:]
     d, shard_dirs = V.run_scripts(scripts, projs, pid, probe=probe, shards=shards)
     viol, known = [], []
+    seen_panics = set()
+    for (run, msg, what) in V.PANICS:
+        # the entry assertions of Connection::send_stream / recv_stream (a handle for the half a
+        # unidirectional stream does not have): the script asked for it, quinn refuses by contract
+        if str(what).startswith("op:") and str(msg).startswith("assertion failed: id.dir() == Dir::Bi || id.initiator()"):
+            continue
+        # one report per distinct panic message (the first script that shows it)
+        if msg in seen_panics:
+            continue
+        seen_panics.add(msg)
+        viol.append({"clauses": ["PanicInCodeUnderTest"], "script": scripts[run] if 0 <= run < len(scripts) else None,
+                     "key": "run%d" % run, "detail": {"what": "panic inside %s: %s" % (what, msg)}})
     for run in V.HANGS:
         viol.append({"clauses": ["HangInCodeUnderTest"], "script": scripts[run] if 0 <= run < len(scripts) else None,
                      "key": "run%d" % run, "detail": {"what": "a call into quinn did not return within the watchdog limit"}})
@@ -138,7 +151,9 @@ def check_C01(tier, seed):
     mcs = [("StreamData.tla", "MC_StreamData.cfg" if quick else "MC_StreamData4.cfg"),
            ("Sched.tla", "MC_Sched.cfg"), ("Sched.tla", "MC_Sched_unfair.cfg")]
     return generic("C01", tier, seed, mcs, scripts,
-                   [("streamdata", "StreamDataTrace.tla", "StreamDataTrace.cfg"), ("sched", "SchedTrace.tla", "SchedTrace.cfg")],
+                   [("streamdata", "StreamDataTrace.tla", "StreamDataTrace.cfg"), ("sched", "SchedTrace.tla", "SchedTrace.cfg"),
+                    # a frame that is skipped in a packet that gets acknowledged is lost for good: frame conservation (C04's ledger)
+                    ("auth", "AuthTrace.tla", "AuthTrace.cfg")],
                    ["payload is the arithmetic progression (key+offset) mod 251 per stream; content errors that are a multiple of 251 bytes apart are caught by the offset checks only",
                     "toy crypto provider; network faults are those of the simulator (drop, duplicate, delay/reorder, GSO split, link MTU, CE marks)"],
                    extra_cov={"fate_vectors_enumerated_by_tlc": len(vecs), "generator_states": gst})
@@ -442,7 +457,8 @@ def replay_C08(scripts):
 
 def replay_C01(scripts):
     return generic("C01", "quick", 0, [], scripts, [("streamdata", "StreamDataTrace.tla", "StreamDataTrace.cfg"),
-                                                     ("sched", "SchedTrace.tla", "SchedTrace.cfg")], [], shards=1)
+                                                     ("sched", "SchedTrace.tla", "SchedTrace.cfg"),
+                                                     ("auth", "AuthTrace.tla", "AuthTrace.cfg")], [], shards=1)
 
 
 def replay_C07(scripts):
